@@ -36,6 +36,9 @@ package decoders
 //@ props C13 C07 C09
 //@ env pooltype(d.pool, *ammo.Ammo)
 //@ ensures [error-yields-no-usable-ammo] imp(result1 != nil && calls(a.Setup) == 0, result0 == nil)
+//@ ensures [unterminated-last-line-is-decoded] imp(result_of(reader.ReadString, 1) == io.EOF && len(strings.TrimSpace(result_of(reader.ReadString, 0))) > 0, calls(util.DecodeHeader) + calls(uripost.DecodeURI) == 1)
+//@ ensures [end-of-file-is-reported] imp(result_of(reader.ReadString, 1) == io.EOF && len(strings.TrimSpace(result_of(reader.ReadString, 0))) == 0, result1 == io.EOF && result0 == nil)
+//@ ensures [blank-line-yields-nothing] imp(result_of(reader.ReadString, 1) == nil && len(strings.TrimSpace(result_of(reader.ReadString, 0))) == 0, result0 == nil && result1 == nil)
 //@ at call a.Setup assert [post-request] arg(method) == "POST" && arg(url) == result_of(uripost.DecodeURI, 1) && arg(tag) == result_of(uripost.DecodeURI, 2)
 //@ at call a.Setup assert [body-has-the-announced-size] len(arg(body)) == result_of(uripost.DecodeURI, 0)
 //@ at call uripost.DecodeURI assert [whole-trimmed-line] arg(uriString) == result_of(strings.TrimSpace, 0)
@@ -49,3 +52,20 @@ package decoders
 //@ at call a.Setup assert [file-headers-have-priority] forall_t(q, string, imp(has(commonHeader, q), has(arg(header), q) && arg(header)[q] == commonHeader[q]))
 //@ at call commonHeader.Set assert [in-file-header-line] arg(a0) == result_of(util.DecodeHeader, 0) && arg(a1) == result_of(util.DecodeHeader, 1)
 //@ modifies elems(commonHeader)
+
+// ---------------------------------------------------------------- raw
+
+//@ func (d *rawDecoder) Scan
+//@ props C08 C13 C07
+//@ env pooltype(d.pool, *ammo.RawAmmo)
+//@ ensures [limit] imp(d.config.Limit != 0 && old(d.ammoNum) >= d.config.Limit, result1 == ErrAmmoLimit && d.ammoNum == old(d.ammoNum) && d.passNum == old(d.passNum))
+//@ ensures [count] imp(result1 == nil, d.ammoNum == old(d.ammoNum) + 1 && result0 != nil)
+//@ ensures [no-delivery-across-the-pass-bound] imp(result1 == nil && d.config.Passes != 0 && old(d.passNum) < d.config.Passes, d.passNum < d.config.Passes)
+//@ ensures [passes-count-up] d.passNum >= old(d.passNum)
+//@ loop 0 invariant d.ammoNum == old(d.ammoNum) && d.passNum >= old(d.passNum)
+//@ loop 0 invariant imp(d.config.Passes != 0 && old(d.passNum) < d.config.Passes, d.passNum < d.config.Passes)
+//@ loop 0 step [unterminated-last-line-is-decoded] imp(result_of(d.reader.ReadString, 1) == io.EOF && len(strings.TrimSpace(result_of(d.reader.ReadString, 0))) > 0, false)
+//@ loop 0 step [a-pass-ends-only-at-end-of-file] imp(d.passNum != iter(d.passNum), result_of(d.reader.ReadString, 1) == io.EOF && d.passNum == iter(d.passNum) + 1)
+//@ at call raw.DecodeHeader assert [whole-trimmed-line] arg(headerString) == result_of(strings.TrimSpace, 0)
+//@ at call a.Setup#0 assert [request-bytes-and-tag] len(arg(buff)) == result_of(raw.DecodeHeader, 0) && arg(tag) == result_of(raw.DecodeHeader, 1) && arg(header) == d.decodedConfigHeaders
+//@ modifies d.ammoNum, d.passNum
